@@ -1002,7 +1002,7 @@ pub fn main(args: Args) -> i32 {
             traces.fetch_add(res.traces, std::sync::atomic::Ordering::Relaxed);
         });
     };
-    let opts2 = gen::Opts { depth: 2, max_programs: u64::MAX, multi_template: true, loop_controls: true };
+    let opts2 = gen::Opts { depth: 2, max_programs: u64::MAX, multi_template: true, loop_controls: true, extra_leaves: true };
     run_space(gen::Opts { depth: 1, ..opts2 }, 1, &[0, 1, 2]);
     run_space(opts2, args.tier.pick(3, 1), if args.tier == Tier::Quick { &[0] } else { &[0, 1, 2] });
     if args.tier == Tier::Thorough {
